@@ -307,6 +307,28 @@ AncVecs(n, anc) == IF n.k # "e" \/ Ignored(n) THEN {anc}
                    ELSE IF IsHtml(n, "img") THEN {anc, Append(anc, <<"I", IF HasAttr(n, "src") THEN n.a.src ELSE "">>)}
                    ELSE {anc, anc \o AnnOf(n)} \cup AncVecsSeq(n.c, anc \o AnnOf(n))
 IsRichLines(run) == run.route \in {"lines", "staged_lines"} /\ run.cfg.deco = "rich"
+\* the continuation flag of preformatted text: a letter that is the very first character of a source
+\* line of a <pre> (directly after the start tag, or directly after a newline, possibly inside inline
+\* elements that open there) starts a piece and so carries Preformat(false).  One boolean per letter
+\* of V(d); anything the clause is not sure about is FALSE (unconstrained).
+TransparentInline == {"em", "i", "strong", "s", "del", "code", "span", "a", "ins"}
+RECURSIVE LineStart(_, _, _)
+LineStartSeq(ns, pre, at) ==
+  FoldLeft(LAMBDA acc, n : LET r == LineStart(n, pre, acc.at) IN [out |-> acc.out \o r.out, at |-> r.at],
+           [out |-> <<>>, at |-> at], ns)
+LineStart(n, pre, at) ==
+  IF n.k = "t"
+  THEN FoldLeft(LAMBDA acc, ch : IF IsLetterCode(ch[1]) THEN [out |-> Append(acc.out, pre /\ acc.at), at |-> FALSE]
+                                 ELSE [acc EXCEPT !.at = (ch[1] = NL)],
+                [out |-> <<>>, at |-> at], n.s)
+  ELSE IF n.k # "e" THEN [out |-> <<>>, at |-> at]
+  ELSE IF Ignored(n) THEN [out |-> <<>>, at |-> FALSE]
+  ELSE IF IsHtml(n, "img") THEN [out |-> IF ImgVisible(n) THEN Rep(FALSE, Len(Letters(n.a.alt))) ELSE <<>>, at |-> FALSE]
+  ELSE IF IsHtml(n, "pre") THEN [out |-> LineStartSeq(n.c, TRUE, TRUE).out, at |-> FALSE]
+  ELSE IF n.h /\ n.n \in TransparentInline THEN LineStartSeq(n.c, pre, at)
+  ELSE [out |-> LineStartSeq(n.c, pre, FALSE).out, at |-> FALSE]
+PVal(tags) == LET idx == {i \in 1..Len(tags) : tags[i][1] = "P"} IN
+              IF idx = {} THEN -1 ELSE tags[CHOOSE m \in idx : \A q \in idx : q <= m][2]
 P_C09(c) ==
   ~IsRichLines(c.runs[1]) \/
   LET a == c.runs[1]
@@ -320,6 +342,11 @@ P_C09(c) ==
        \* no annotation leaks: whatever a cell carries is the vector of some node of the document
        /\ \A i \in 1..Len(a.res.lines) : \A j \in 1..Len(a.res.lines[i]) :
              LET x == a.res.lines[i][j] IN IsFrag(x) \/ NoP(x[3]) \in valid
+       \* the first character of a preformatted source line is never flagged as a continuation
+       /\ (~HasTable(dom) /\ ~CfgOf(a.cfg).overflow) =>
+             LET st == LineStartSeq(dom, FALSE, FALSE).out
+                 items == SelectSeq(Concat(a.res.lines), LAMBDA x : ~IsFrag(x) /\ IsLetterCode(x[1])) IN
+             Len(st) = Len(items) => \A i \in 1..Len(st) : st[i] => PVal(items[i][3]) = 0
   /\ Len(c.runs) >= 2 =>
        LET b == c.runs[2] IN
        /\ a.res.k = b.res.k
